@@ -29,8 +29,24 @@ def _unzip_of_possibly_empty(R, f: Fn) -> None:
             continue
         src = zs[0].args[0].value
         facts = f.guard_atoms(n.id)
-        nonempty = any(entails(facts, ast.parse(t_, mode='eval').body, tr) for (t_, tr) in
-                       ((f'len({text(src)}) > 0', True), (f'len({text(src)}) == 0', False), (text(src), True), (f'len({text(src)})', True)))
+        # as long as: `[... for x in X]` (no filter) and `list(X)` are as long as X
+        same_len = [src]
+        cur, at = src, n.id
+        for _ in range(4):
+            if isinstance(cur, ast.Name) and cur.id in f.lf.locals:
+                vals = f.lf.values_reaching(at, cur.id)
+                if len(vals) != 1 or vals[0][1] is None or not isinstance(vals[0][0], int) or vals[0][0] < 0 or cur.id in f.mutated_in_place():
+                    break
+                at, cur = vals[0][0], vals[0][1]
+            if isinstance(cur, (ast.ListComp, ast.GeneratorExp)) and len(cur.generators) == 1 and not cur.generators[0].ifs:
+                cur = cur.generators[0].iter
+            elif (is_call(cur, 'list') or is_call(cur, 'tuple') or is_call(cur, 'enumerate')) and len(cur.args) == 1:
+                cur = cur.args[0]
+            elif not isinstance(cur, ast.Name):
+                break
+            same_len.append(cur)
+        nonempty = any(entails(facts, ast.parse(t_, mode='eval').body, tr) for s_ in same_len for (t_, tr) in
+                       ((f'len({text(s_)}) > 0', True), (f'len({text(s_)}) == 0', False), (text(s_), True), (f'len({text(s_)})', True)))
         R.check(nonempty, f.q, f'unzip-empty:{text(src)}', f'`{text(a)[:50]}` runs only when `{text(src)}` is not empty',
                 f'`{text(a)[:60]}` unpacks zip(*{text(src)}) into {len(a.targets[0].elts)} names with no guard that `{text(src)}` is non-empty: an empty range '
                 f'of periods (end before start, or a span shorter than lags + leads) raises ValueError instead of returning empty lists', where=f.where(n))
